@@ -1,4 +1,5 @@
 //! The mutators themselves (child module of `opmutate`).
+use super::ctx;
 use super::*;
 
 type Rule = fn(&mut M) -> bool;
@@ -48,12 +49,22 @@ pub const MUTATORS: &[(&str, Rule)] = &[
     ("dir-location", dir_location),
     ("dir-dup", dir_dup),
     ("exec-only", exec_only),
+    ("reuse-spread-impossible", ctx::reuse_spread_impossible),
+    ("reuse-merge-conflict", ctx::reuse_merge_conflict),
+    ("shared-var-undefined", ctx::shared_var_undefined),
+    ("shared-var-type", ctx::shared_var_type),
+    ("shared-var-unused", ctx::shared_var_unused),
     ("n-reorder-defs", n_reorder_defs),
     ("n-wrap-inline", n_wrap_inline),
     ("n-dup-selection", n_dup_selection),
     ("n-add-typename", n_add_typename),
     ("n-reorder-args", n_reorder_args),
     ("n-reorder-selections", n_reorder_selections),
+    ("n-extract-fragment", ctx::n_extract_fragment),
+    ("n-reuse-spread", ctx::n_reuse_spread),
+    ("n-clone-operation", ctx::n_clone_operation),
+    ("n-shared-var-stricter", ctx::n_shared_var_stricter),
+    ("n-apply-directive", ctx::n_apply_directive),
 ];
 
 /// Apply one mutator chosen by `c`; a mutator that finds no site is replaced by another random
@@ -94,7 +105,7 @@ pub fn mutate_with(c: &mut Choices, doc: &mut Document, s: &RefSchema, rule: Rul
     rule(&mut m)
 }
 
-fn pick<'v, T>(c: &mut Choices, v: &'v [T]) -> Option<&'v T> {
+pub(super) fn pick<'v, T>(c: &mut Choices, v: &'v [T]) -> Option<&'v T> {
     if v.is_empty() {
         None
     } else {
@@ -151,12 +162,31 @@ fn sub_two_roots(m: &mut M) -> bool {
     true
 }
 
+/// paths of the selections (fields, inline fragments, spreads) at the root level of a subscription
+fn sub_root_selections(m: &M) -> Vec<Path> {
+    let mut cands: Vec<Path> = m.sites.fields.iter().filter(|f| f.sub_root).map(|f| f.path.clone()).collect();
+    for st in &m.sites.sets {
+        if st.sub_root && !st.path.idx.is_empty() {
+            cands.push(st.path.clone()); // an inline fragment at root level
+        }
+    }
+    for (p, _) in &m.sites.spreads {
+        let owner = Path { def: p.def, idx: p.idx[..p.idx.len() - 1].to_vec() };
+        if m.sites.sets.iter().any(|s| s.sub_root && s.path.def == owner.def && s.path.idx == owner.idx) {
+            cands.push(p.clone());
+        }
+    }
+    cands
+}
+
+/// The same root selection twice (a field, an inline fragment or a spread of the same named
+/// fragment): still ONE response key after collection.
 fn sub_dup_root(m: &mut M) -> bool {
-    let fs: Vec<FieldSite> = m.sites.fields.iter().filter(|f| f.sub_root).cloned().collect();
-    let Some(site) = pick(m.c, &fs).cloned() else { return false };
-    let sel = sel_mut(m.doc, &site.path).clone();
-    let (last, init) = site.path.idx.split_last().unwrap();
-    set_mut(m.doc, &Path { def: site.path.def, idx: init.to_vec() }).insert(*last, sel);
+    let cands = sub_root_selections(m);
+    let Some(p) = pick(m.c, &cands).cloned() else { return false };
+    let sel = sel_mut(m.doc, &p).clone();
+    let (last, init) = p.idx.split_last().unwrap();
+    set_mut(m.doc, &Path { def: p.def, idx: init.to_vec() }).insert(*last, sel);
     true
 }
 
@@ -175,18 +205,7 @@ fn sub_typename(m: &mut M) -> bool {
 
 fn sub_conditional(m: &mut M) -> bool {
     // any selection at the root level of a subscription
-    let mut cands: Vec<Path> = m.sites.fields.iter().filter(|f| f.sub_root).map(|f| f.path.clone()).collect();
-    for st in &m.sites.sets {
-        if st.sub_root && !st.path.idx.is_empty() {
-            cands.push(st.path.clone()); // an inline fragment at root level
-        }
-    }
-    for (p, _) in &m.sites.spreads {
-        let owner = Path { def: p.def, idx: p.idx[..p.idx.len() - 1].to_vec() };
-        if m.sites.sets.iter().any(|s| s.sub_root && s.path.def == owner.def && s.path.idx == owner.idx) {
-            cands.push(p.clone());
-        }
-    }
+    let cands = sub_root_selections(m);
     let Some(p) = pick(m.c, &cands).cloned() else { return false };
     let d = Directive { name: if m.c.coin() { "skip" } else { "include" }.into(), args: vec![("if".into(), Value::Bool(m.c.coin()))] };
     match sel_mut(m.doc, &p) {
@@ -403,9 +422,13 @@ fn frag_undefined(m: &mut M) -> bool {
 }
 
 fn frag_cycle(m: &mut M) -> bool {
-    let fi = frag_indices(m.doc);
+    let mut fi = frag_indices(m.doc);
     if fi.is_empty() {
-        return false;
+        // no named fragment yet: make one out of some selections (validity-preserving)
+        if !ctx::n_extract_fragment(m) {
+            return false;
+        }
+        fi = frag_indices(m.doc);
     }
     // target fragment F; place `...F` somewhere inside F (direct) or inside a fragment that F
     // spreads (long cycle); the place may be the root set, a nested field or an inline fragment
@@ -416,8 +439,9 @@ fn frag_cycle(m: &mut M) -> bool {
     };
     let mut host = f_idx;
     if m.c.coin() {
-        // a fragment spread by F (directly)
-        let spread_names: Vec<String> = m
+        // a fragment spread by F: directly, or (half of the time) anywhere below F, so that the
+        // cycle is long and may close on a fragment that is reached along several paths
+        let mut spread_names: Vec<String> = m
             .sites
             .spreads
             .iter()
@@ -427,6 +451,9 @@ fn frag_cycle(m: &mut M) -> bool {
                 _ => None,
             })
             .collect();
+        if m.c.coin() {
+            spread_names = ctx::reachable_fragments(m.doc, &fname).into_iter().filter(|n| *n != fname).collect();
+        }
         if let Some(n) = pick(m.c, &spread_names).cloned() {
             if let Some(i) = m.doc.defs.iter().position(|d| matches!(d, Definition::Fragment(f) if f.name == n)) {
                 host = i;
@@ -439,7 +466,7 @@ fn frag_cycle(m: &mut M) -> bool {
     true
 }
 
-fn sel_at<'d>(doc: &'d Document, p: &Path) -> &'d Selection {
+pub(super) fn sel_at<'d>(doc: &'d Document, p: &Path) -> &'d Selection {
     let mut cur = def_set(&doc.defs[p.def]).unwrap();
     let (last, init) = p.idx.split_last().unwrap();
     for &i in init {
@@ -661,40 +688,105 @@ fn push_cross(m: &mut M, site: &SetSite, a: &str, fa: &FieldDef, b: &str, fb: &F
     set.push(Selection::Inline(InlineFragment { type_condition: Some(b.into()), directives: vec![], selection_set: vec![Selection::Field(y)] }));
 }
 
-fn merge_shape(m: &mut M) -> bool {
-    let mut cands: Vec<(SetSite, (String, FieldDef, String, FieldDef))> = vec![];
-    for st in m.sites.sets.clone() {
-        let Some(p) = st.parent.clone() else { continue };
-        if st.sub_root || m.s.possible_types(&p).len() < 2 {
-            continue;
+/// The first clause of SameResponseShape on which two field types differ, walking the wrappers
+/// from the outside: nullability of a list wrapper, nullability of the named type, list against
+/// non-list, different leaf types, leaf against composite. `None`: same shape.
+fn shape_difference(s: &RefSchema, a: &Type, b: &Type) -> Option<&'static str> {
+    let (mut a, mut b) = (a, b);
+    loop {
+        if a.is_non_null() != b.is_non_null() {
+            return Some(if a.nullable().is_list() || b.nullable().is_list() { "list-nonnull" } else { "named-nonnull" });
         }
-        for pr in cross_pairs(m, &p, false) {
-            if shape(m.s, &pr.1.ty) != shape(m.s, &pr.3.ty) {
-                cands.push((st.clone(), pr));
+        a = a.nullable();
+        b = b.nullable();
+        match (a, b) {
+            (Type::List(x), Type::List(y)) => {
+                a = x;
+                b = y;
             }
+            (Type::List(_), _) | (_, Type::List(_)) => return Some("list"),
+            _ => break,
         }
     }
-    let Some((site, (a, fa, b, fb))) = pick(m.c, &cands).cloned() else { return false };
-    push_cross(m, &site, &a, &fa, &b, &fb, "zs");
-    true
+    let (na, nb) = (a.inner_name(), b.inner_name());
+    match (s.is_leaf(na), s.is_leaf(nb)) {
+        (true, true) => (na != nb).then_some("leaf-type"),
+        (false, false) => None,
+        _ => Some("leaf-vs-composite"),
+    }
 }
 
-fn merge_parent_nonexclusive(m: &mut M) -> bool {
-    let mut cands: Vec<(SetSite, (String, FieldDef, String, FieldDef))> = vec![];
-    for st in m.sites.sets.clone() {
-        let Some(p) = st.parent.clone() else { continue };
+type CrossPair = (String, FieldDef, String, FieldDef);
+
+/// Put `... on A { key: fa } ... on B { key: fb }` below a parent type for which such a pair
+/// exists, chosen by the kind of pair first (`kind_of`; `None`: not a candidate) so that rare
+/// kinds are tried as often as common ones. The place is a selection set of the document whose
+/// parent type has the pair, or (always when there is none, else half of the time) a field
+/// selected for the purpose whose type has it.
+fn place_cross(m: &mut M, second_abstract: bool, min_possible: usize, kind_of: &dyn Fn(&RefSchema, &CrossPair) -> Option<&'static str>, key: &str) -> bool {
+    use std::collections::BTreeMap;
+    // (set, field to select there first, parent type of the pair)
+    let mut places: Vec<(SetSite, Option<FieldDef>, String)> = vec![];
+    for st in &m.sites.sets {
+        let Some(p) = &st.parent else { continue };
         if st.sub_root {
             continue;
         }
-        for pr in cross_pairs(m, &p, true) {
-            if pr.1.name != pr.3.name && shape(m.s, &pr.1.ty) == shape(m.s, &pr.3.ty) {
-                cands.push((st.clone(), pr));
+        if m.s.possible_types(p).len() >= min_possible {
+            places.push((st.clone(), None, p.clone()));
+        }
+        for g in m.s.get(p).map(|t| t.fields.clone()).unwrap_or_default() {
+            let inner = g.ty.inner_name().to_string();
+            if m.s.is_composite(&inner) && m.s.possible_types(&inner).len() >= min_possible {
+                places.push((st.clone(), Some(g), inner));
             }
         }
     }
-    let Some((site, (a, fa, b, fb))) = pick(m.c, &cands).cloned() else { return false };
-    push_cross(m, &site, &a, &fa, &b, &fb, "ze");
+    let mut pairs: BTreeMap<String, BTreeMap<&'static str, Vec<CrossPair>>> = BTreeMap::new();
+    for (_, _, u) in &places {
+        if pairs.contains_key(u) {
+            continue;
+        }
+        let mut by_kind: BTreeMap<&'static str, Vec<CrossPair>> = BTreeMap::new();
+        for pr in cross_pairs(m, u, second_abstract) {
+            if let Some(k) = kind_of(m.s, &pr) {
+                by_kind.entry(k).or_default().push(pr);
+            }
+        }
+        pairs.insert(u.clone(), by_kind);
+    }
+    let mut kinds: Vec<&'static str> = pairs.values().flat_map(|k| k.keys().cloned()).collect();
+    kinds.sort();
+    kinds.dedup();
+    let Some(kind) = pick(m.c, &kinds).cloned() else { return false };
+    let has = |u: &String| pairs.get(u).map_or(false, |k| k.contains_key(kind));
+    let existing: Vec<(SetSite, Option<FieldDef>, String)> = places.iter().filter(|p| p.1.is_none() && has(&p.2)).cloned().collect();
+    let fresh: Vec<(SetSite, Option<FieldDef>, String)> = places.iter().filter(|p| p.1.is_some() && has(&p.2)).cloned().collect();
+    let from = if !existing.is_empty() && (fresh.is_empty() || m.c.coin()) { existing } else { fresh };
+    let Some((st, g, u)) = pick(m.c, &from).cloned() else { return false };
+    let Some((a, fa, b, fb)) = pick(m.c, &pairs[&u][kind]).cloned() else { return false };
+    let site = match g {
+        None => st,
+        Some(g) => {
+            let mut f = simple_field(m.c, m.s, &g, Some(format!("{}p", key)));
+            f.selection_set.clear();
+            let set = set_mut(m.doc, &st.path);
+            set.push(Selection::Field(f));
+            let mut path = st.path.clone();
+            path.idx.push(set.len() - 1);
+            SetSite { path, parent: Some(u), sub_root: false, in_fragment: st.in_fragment }
+        }
+    };
+    push_cross(m, &site, &a, &fa, &b, &fb, key);
     true
+}
+
+fn merge_shape(m: &mut M) -> bool {
+    place_cross(m, false, 2, &|s, pr| shape_difference(s, &pr.1.ty, &pr.3.ty), "zs")
+}
+
+fn merge_parent_nonexclusive(m: &mut M) -> bool {
+    place_cross(m, true, 1, &|s, pr| (pr.1.name != pr.3.name && shape(s, &pr.1.ty) == shape(s, &pr.3.ty)).then_some("same-shape"), "ze")
 }
 
 // ---------------------------------------------------------------------------- values
@@ -803,7 +895,7 @@ fn ops_with_vars(doc: &Document) -> Vec<usize> {
     doc.defs.iter().enumerate().filter(|(_, d)| matches!(d, Definition::Operation(o) if !o.vars.is_empty())).map(|(i, _)| i).collect()
 }
 
-fn op_at(doc: &mut Document, i: usize) -> &mut OperationDef {
+pub(super) fn op_at(doc: &mut Document, i: usize) -> &mut OperationDef {
     match &mut doc.defs[i] {
         Definition::Operation(o) => o,
         _ => panic!("not an operation"),
